@@ -167,7 +167,7 @@ def uf_inner(atom: str):
 
 
 TRANSPARENT_CALLS = {"tile", "reshape", "asarray", "atleast_1d", "atleast_2d", "float64", "astype", "copy", "array"}
-UNINTERPRETED = {"sqrt", "nansum", "sum", "diff", "log", "exp", "abs", "mean"}
+UNINTERPRETED = {"sqrt", "nansum", "sum", "diff", "log", "exp", "abs", "mean", "sin", "cos", "arcsin", "arccos", "deg2rad", "rad2deg", "diag", "log1p", "expm1"}
 
 
 def poly(e: ast.AST, resolve=None, rename=None, _depth: int = 0) -> Rational:
